@@ -16,7 +16,7 @@ variable {C : Type}
 /-- one entry of `include:` "loaded on its own", as the property describes it: `im` is the sub-load of the entry's files
 (`pl.paths`, none of them on the chain) in the project directory `pl.projDir`, with working directory `pl.relwd` —
 which, joined back onto the including directory, is the project directory whenever the directory the entry names
-exists — and with the environment `env'`: the parent's value for every variable the parent defines, otherwise the value
+exists (and is a non-empty relative path unless `project_directory` is absolute) — and with the environment `env'`: the parent's value for every variable the parent defines, otherwise the value
 of the last env file of the entry (declared `env_file`s, or the project directory's `.env`) that defines it -/
 structure LoadedOnItsOwn (W : World) (E : EnvWorld C) (L : String) (env : Env) (chain : List String)
     (r : IncCfg) (im : KVs) : Prop where
@@ -25,6 +25,8 @@ structure LoadedOnItsOwn (W : World) (E : EnvWorld C) (L : String) (env : Env) (
     (∀ p ∈ pl.paths, p ∉ chain) ∧
     (∀ p0 rest, r.path = p0 :: rest → PlanDirsExist W L r p0 →
         Include.join L pl.relwd = Include.clean pl.projDir ∨ (Include.isAbs pl.relwd = true ∧ pl.relwd = pl.projDir)) ∧
+    (∀ p0 rest, r.path = p0 :: rest → Include.isAbs r.projectDirectory = false → PlanDirsExist W L r p0 →
+        pl.relwd ≠ "" ∧ Include.isAbs pl.relwd = false ∧ Include.join L pl.relwd = Include.clean pl.projDir) ∧
     envFiles W L pl.projDir r.envFile = .ok efs ∧ Parsed E env efs [] es fromFile ∧
     (∀ x, Env.get env' x = match Env.get env x with
       | some v => some v
@@ -53,10 +55,12 @@ theorem subLoads_each (W : World) (E : EnvWorld C) (hW : W.envFromFile = getEnvF
     cases h
     have hs' : subLoads W wd L env chain rs = .ok ims' := hs
     obtain ⟨efs, ff, es, hef, hpar, hget⟩ := include_env_closed_form W E hW L pl.projDir env env' r.envFile he
-    refine .cons ⟨⟨pl, env', efs, ff, es, hp, plan_ok_fresh W L L chain r pl hp, ?_, hef, hpar, hget, hl⟩⟩
+    refine .cons ⟨⟨pl, env', efs, ff, es, hp, plan_ok_fresh W L L chain r pl hp, ?_, ?_, hef, hpar, hget, hl⟩⟩
       (subLoads_each W E hW wd L hL hb env chain rs ims' hs')
-    intro p0 rest hpath hex
-    exact include_anchor_is_projDir_partial W L chain r pl p0 rest hL hpath hex hp
+    · intro p0 rest hpath hex
+      exact include_anchor_is_projDir_partial W L chain r pl p0 rest hL hpath hex hp
+    · intro p0 rest hpath hpd hex
+      exact include_anchor_is_projDir_rel_partial W L chain r pl p0 rest hL hpath hpd hex hp
 
 /-- **include_property**: whenever `ApplyInclude` succeeds for an including project in the absolute directory `L`, there
 are the entries of `include:` and, for each, the included project *as loaded on its own* (`LoadedOnItsOwn`: fresh files,
